@@ -91,8 +91,8 @@ func Replay(r *rt.Run, path string) error {
 	t := r.NewTrace("trace")
 	for i := range cfgs {
 		id := fmt.Sprintf("r%d", i+1)
-		obs := x.Run(cfgs[i], []Seq{seqs[i]}, []string{id})
-		emit(t, cfgs[i], id, seqs[i], obs[0])
+		obs, rep := x.Run(cfgs[i], []Seq{seqs[i]}, []string{id})
+		emit(t, cfgs[i], id, seqs[i], obs[0], rep)
 		t.Distinct(cfgs[i].String() + "#" + seqs[i].key())
 	}
 	r.Finish("replay of the inputs of a saved trace segment on the real code", false)
